@@ -188,9 +188,11 @@ def _requested_name(nv, name, kind, i, ser):
     if nv == "lookalike":
         return ("ｍ" + name[1:] if name.startswith("m") else name.replace("m", "ｍ", 1), name + "​", name + " ", name + "\x00",
                 name.upper(), name.replace("e", "е"))[i % 6]
-    v = NONSTRING[i % len(NONSTRING)]
+    v = NONSTRING[(i // 4 + i) % len(NONSTRING)]     # (independent of the serializer, which goes by i % 4)
     if isinstance(v, bytes) and ser in ("serpent", "json"):
         v = 5
+    elif isinstance(v, bytes):
+        v = name.encode("utf-8")        # the member's own name, as bytes: not text, whatever it would spell
     if isinstance(v, tuple) and ser != "serpent":
         v = ["member"]
     if isinstance(v, dict) and ser == "marshal":
